@@ -8,3 +8,13 @@ Theorem C16_rows_holds : C16_rows. Proof. exact c16_rows. Qed.
 Print Assumptions C16_rows_holds.
 Theorem C16_length_holds : C16_length. Proof. exact c16_length. Qed.
 Print Assumptions C16_length_holds.
+(* the record arrays (Model/Records.v, Spec/StatementsRec.v) *)
+Require Import Boario.Spec.StatementsRec Boario.Proofs.C16RecProofs.
+Theorem C16_recorded_holds : C16_recorded. Proof. exact c16_recorded. Qed.
+Print Assumptions C16_recorded_holds.
+Theorem C16_recorded_length_holds : C16_recorded_length. Proof. exact c16_recorded_length. Qed.
+Print Assumptions C16_recorded_length_holds.
+Theorem C16_recorded_prefix_holds : C16_recorded_prefix. Proof. exact c16_recorded_prefix. Qed.
+Print Assumptions C16_recorded_prefix_holds.
+Theorem C16_run_records_holds : C16_run_records. Proof. exact c16_run_records. Qed.
+Print Assumptions C16_run_records_holds.
